@@ -165,7 +165,11 @@ pub fn build_ops(cfg: &Cfg, s: &HistSpec) -> Vec<Op> {
     for &is_v in &s.order {
         if is_v {
             let key = vi == 0 || (s.keymask >> (vi - 1)) & 1 == 1;
-            let (data, _) = video_frame(cfg.codec, key, vi == 0, vi as u32 + 1, size_of(s.vsize_pattern, vi));
+            // the submitted flag is what the file must carry; under size pattern 1 the payload of
+            // every later frame is of the other kind (a flagged frame without an IDR / key-frame
+            // header, an unflagged IDR)
+            let payload_key = if vi > 0 && s.vsize_pattern == 1 { !key } else { key };
+            let (data, _) = video_frame(cfg.codec, payload_key, vi == 0, vi as u32 + 1, size_of(s.vsize_pattern, vi));
             let data = Bytes::new(data);
             debug_assert!(tick_is_robust(pts[vi]) && tick_is_robust(dts[vi]));
             ops.push(match s.pts_mode {
